@@ -244,14 +244,14 @@ for _b0 in (4, 8):
     for _min in (False, True):
         _cls = type(f'IoThreadFunc_b{_b0}' + ('_min' if _min else ''), (IoThreadFunc,), dict(b0=_b0, minimal=_min, variant=f'b0={_b0}' + (',reduced-I/O reader' if _min else '')))
         _cls.loops = IO_LOOPS
-        fuc(IO_KEY, props=['C01', 'C04', 'C11'])(_cls)
+        fuc(IO_KEY, props=['C01', 'C04', 'C11', 'C20'])(_cls)
 
 from .c_loader import THOROUGH      # noqa: E402
 IO_B0 = (4, 8, 16) if THOROUGH else (4, 8)
 if THOROUGH:
     _cls = type('IoThreadFunc_b16', (IoThreadFunc,), dict(b0=16, minimal=False, variant='b0=16'))
     _cls.loops = IO_LOOPS
-    fuc(IO_KEY, props=['C01', 'C04', 'C11'])(_cls)
+    fuc(IO_KEY, props=['C01', 'C04', 'C11', 'C20'])(_cls)
 
 
 class IoThreadFuncModular(IoThreadFunc):
@@ -504,7 +504,7 @@ class ReadLine(Contract):
 
 
 for _f in (5, 1, 2):
-    fuc(RL_KEY, props=['C01', 'C04', 'C07x', 'C20'], modular=(_f == 5))(type(f'ReadLine_f{_f}', (ReadLine,), dict(fmt=_f, variant=f'format={_f}')))
+    fuc(RL_KEY, props=['C01', 'C04', 'C07x', 'C20', 'C11'], modular=(_f == 5))(type(f'ReadLine_f{_f}', (ReadLine,), dict(fmt=_f, variant=f'format={_f}')))
 
 
 # ---------------------------------------------------------------------------------------------
@@ -564,7 +564,7 @@ class IoThreadFunc2d(ProducerContract):
 
 
 for _b1 in IO_B1:
-    fuc(IO2_KEY, props=['C09', 'C04'])(type(f'IoThreadFunc2d_b{_b1}', (IoThreadFunc2d,), dict(b1=_b1, variant=f'b1={_b1}')))
+    fuc(IO2_KEY, props=['C09', 'C04', 'C20'])(type(f'IoThreadFunc2d_b{_b1}', (IoThreadFunc2d,), dict(b1=_b1, variant=f'b1={_b1}')))
 
 
 class IoThreadFunc2dModular(IoThreadFunc2d):
@@ -1002,8 +1002,8 @@ class IoThreadFuncSym(IoThreadFunc):
 
 
 IoThreadFuncSym.loops = IO_LOOPS
-fuc(IO_KEY, props=['C01', 'C04', 'C11'])(IoThreadFuncSym)
-fuc(IO_KEY, props=['C01', 'C04'])(type('IoThreadFuncSymMin', (IoThreadFuncSym,), dict(minimal=True, variant='any b0,reduced-I/O reader')))
+fuc(IO_KEY, props=['C01', 'C04', 'C11', 'C20'])(IoThreadFuncSym)
+fuc(IO_KEY, props=['C01', 'C04', 'C20'])(type('IoThreadFuncSymMin', (IoThreadFuncSym,), dict(minimal=True, variant='any b0,reduced-I/O reader')))
 
 
 def _io2_witness(idx, env):
@@ -1051,7 +1051,7 @@ class IoThreadFunc2dSym(IoThreadFunc2d):
             c.ensure(eq(arr.fn((j,)), a['_old'][f]((j,))), f'header{f}.entries_of_other_traces_untouched')
 
 
-fuc(IO2_KEY, props=['C09', 'C04'])(IoThreadFunc2dSym)
+fuc(IO2_KEY, props=['C09', 'C04', 'C20'])(IoThreadFunc2dSym)
 
 
 
